@@ -37,6 +37,10 @@ ITEMS = [
     ("wrapped", ["aa bb cc dd ee ff gg hh"]),
     ("heading", ["# h"]),
     ("nested-first", ["- n1", "- n2"]),
+    # appended later: items whose only block is not a paragraph (the renderer's per-item spacing state is driven by paragraphs)
+    ("hr", ["***"]),
+    ("code-only", ["```", "x", "```"]),
+    ("table", ["| a | b |", "|---|---|"]),
 ]
 CTX = [((), None, None), (("bq",), None, None), (("fn",), None, None), (("ul",), None, None), ((), "p", None), ((), "h", "p"), ((), None, "p")]
 MODES = ("preserve", "loose", "tight")
@@ -66,7 +70,8 @@ def lists_of(tree, acc=None, path=()):
 def drop_blank_lines(text):
     out, fence = [], None
     for ln in text.split("\n"):
-        core_ln = strip_prefix(ln)
+        # a fence may directly follow a list marker ("- ```"): strip markers as well as quote / indent prefixes
+        core_ln = re.sub(r"^(?:[ >]*(?:[-*+]|\d+[.)]|\[\^\w+\]:)[ ]+)*[ >]*", "", ln)
         m = re.match(r"^(`{3,}|~{3,})", core_ln)
         if m:
             if fence is None:
